@@ -131,3 +131,27 @@ Theorem C05_tileset_image : forall (inflate : list Z -> Z -> zres) (bs : list Z)
               zlen (rpx r) = ts_w ts * (ts_h ts * ts_count ts).
 Proof. exact loaded_tileset_image. Qed.
 Print Assumptions C05_tileset_image.
+
+(* the whole public API walk of Model/Dump.v (STRUCT, FRAMES, CELS, TILES: every accessor, every
+   frame, layer, cel route, tileset, tile, tilemap, and tile lookups on a grid and at the
+   corners of the u32 range), for observation options with non-negative caps *)
+Theorem C05_walk : forall (inflate : list Z -> Z -> zres) (bs : list Z) (f : file),
+  Forall is_byte bs -> load inflate bs = Ok f ->
+  forall o bit,
+  (forall m, o_max_frames o = Some m -> 0 <= m) /\ (forall m, o_max_layers o = Some m -> 0 <= m) ->
+  (exists ls, section f o bit = Ok ls) \/ section f o bit = Panic 302.
+Proof. exact loaded_walk. Qed.
+Print Assumptions C05_walk.
+
+Theorem C05_walk_total : forall (Mok : Z -> Prop),
+  (forall m b s o, Mok m -> pix_wf b -> pix_wf s -> is_byte o -> exists p, blend m b s o = Some p /\ pix_wf p) ->
+  forall (inflate : list Z -> Z -> zres),
+  (forall z n out, inflate z n = ZOk out -> Forall is_byte out) ->
+  forall (bs : list Z) (f : file),
+  Forall is_byte bs -> load inflate bs = Ok f ->
+  (forall i l, aget (f_layers f) i = Some l -> Mok (l_blend l)) ->
+  forall o bit,
+  (forall m, o_max_frames o = Some m -> 0 <= m) /\ (forall m, o_max_layers o = Some m -> 0 <= m) ->
+  exists ls, section f o bit = Ok ls.
+Proof. exact loaded_walk_total. Qed.
+Print Assumptions C05_walk_total.
